@@ -27,7 +27,8 @@ EXPLANATION = (
 ASSUMPTIONS = ["make_active/make_passive subscribe/unsubscribe the slot they are called on (C13 covers link internals)"]
 DECIDED = ["a subscription = active list", "b notification schedules owner", "c readiness gate", "d evaluate gate", "e passive marker",
            "e2 passive variant is a different runtime type", "f start-time self-schedule",
-           'i prune-loop guard of make_passive (has_any_active)', 'j a withdrawn wake-up must not run user code (known finding F-C03-1)']
+           'i prune-loop guard of make_passive (has_any_active)', 'j a withdrawn wake-up must not run user code (known finding F-C03-1)',
+           'k selector collectors of static nodes number in input space']
 NOT_DECIDED = ["binding correctness (C04/C13)", "user code"]
 
 
